@@ -173,7 +173,7 @@ func addrRootsAtField(addr ssa.Value, named *types.Named, fname string) bool {
 		}
 		if n := an.NamedOf(fa.X.Type()); n != nil && n.Obj() == named.Obj() {
 			st := n.Underlying().(*types.Struct)
-			if st.Field(fa.Field).Name() == fname {
+			if an.FName(st, fa.Field) == fname {
 				return true
 			}
 		}
@@ -195,7 +195,7 @@ func isFieldLoad(v ssa.Value, named *types.Named, fname string) bool {
 	if n == nil || n.Obj() != named.Obj() {
 		return false
 	}
-	return n.Underlying().(*types.Struct).Field(fa.Field).Name() == fname
+	return an.FName(n.Underlying().(*types.Struct), fa.Field) == fname
 }
 
 // mapMutations lists MapUpdate instructions (and delete() calls) in f whose map operand is a load of named.fname.
@@ -445,7 +445,7 @@ func fieldReads(f *ssa.Function, named *types.Named, fname string) []ssa.Instruc
 	an.Instrs(f, func(in ssa.Instruction) {
 		switch x := in.(type) {
 		case *ssa.FieldAddr:
-			if n := an.NamedOf(x.X.Type()); n != nil && n.Obj() == named.Obj() && n.Underlying().(*types.Struct).Field(x.Field).Name() == fname {
+			if n := an.NamedOf(x.X.Type()); n != nil && n.Obj() == named.Obj() && an.FName(n.Underlying().(*types.Struct), x.Field) == fname {
 				// a FieldAddr used only as a store target is a write, not a read
 				onlyStore := true
 				for _, r := range *x.Referrers() {
@@ -459,7 +459,7 @@ func fieldReads(f *ssa.Function, named *types.Named, fname string) []ssa.Instruc
 				}
 			}
 		case *ssa.Field:
-			if n := an.NamedOf(x.X.Type()); n != nil && n.Obj() == named.Obj() && n.Underlying().(*types.Struct).Field(x.Field).Name() == fname {
+			if n := an.NamedOf(x.X.Type()); n != nil && n.Obj() == named.Obj() && an.FName(n.Underlying().(*types.Struct), x.Field) == fname {
 				out = append(out, in)
 			}
 		}
@@ -528,4 +528,13 @@ func apiOwner(p *an.Prog, f *ssa.Function) *ssa.Function {
 		f = from
 	}
 	return f
+}
+
+// nm: the current name of a resolved anchor function ("" if it did not resolve) — rules that recognise a call in a
+// rendered description use it instead of a literal, so that a renamed anchor keeps matching.
+func nm(f *ssa.Function) string {
+	if f == nil {
+		return "\x00unresolved"
+	}
+	return f.Name()
 }
